@@ -219,6 +219,7 @@ int main(int argc, char *argv[])
 
         // Only scalar floats are printed; other datatypes need caller provided buffers
         VssData_t data;
+        memset(&data, 0, sizeof(data));
         Vss_Datatype_t dt = Avtp_Vss_GetDatatype((Avtp_Vss_t*)acf_pdu);
 
         if (dt == VSS_FLOAT &&
